@@ -424,6 +424,15 @@ def exon_loop_inverse(chk, repo, rid):
         want_rev = strand == -1
         sel = [l for l in cands if ('reversed(' in unparse(l.iter)) == want_rev]
         if len(sel) != 1:
+            # a loop written once and parametrised by the strand: specialise the source on the strand (E10) and normalise again
+            from sa.canon import normal_form as _nform, literal_constants as _lc
+            sexprs = {unparse(c.left) for c in ast.walk(fi.node) if isinstance(c, ast.Compare) and re.fullmatch(r'(?:.*\.)?strand', unparse(c.left))}
+            if sexprs:
+                nf2 = _nform(sem.specialise(fi.node, {t: strand for t in sexprs}), _lc(fi.module.tree), flow=True)
+                cands2 = [l for l in ast.walk(nf2) if isinstance(l, ast.For) and isinstance(l.target, ast.Name) and re.search(r'\bexons?\b', unparse(l.iter))]
+                sel2 = [l for l in cands2 if ('reversed(' in unparse(l.iter)) == want_rev]
+                if len(sel2) == 1:
+                    return nf2, sel2[0]
             raise AnalysisError(f"anchor={fi.qual}: exon loop for strand {strand:+d} not found ({[unparse(l.iter) for l in cands]})")
         return nf, sel[0]
 
